@@ -56,6 +56,7 @@ type Engine struct {
 }
 
 type Options struct {
+	TokenModel  bool // value-token model of perunio.Encode/Decode (C14 composite round trips)
 	StreamModel bool // model reader contents as a stream (C14/C16); otherwise read buffers hold arbitrary bytes
 	Overlay   map[string][]byte
 	MaxPaths  int
